@@ -1185,6 +1185,47 @@ def debug_wrapped_tail_module(idx, entry):
 }""" % (idx, items.replace("HEAD", head), items.replace("HEAD", "#[derive(Debug)]"), flags, idx)
 
 
+def debug_ignored_before_tail_module(idx, entry):
+    """structs with `#[debug(ignore)]` fields IN FRONT OF a last field that may be unsized (a `?Sized` parameter, `str`, `[u8]`, a wrapper):
+    the tail is still the last field of the STRUCT, whatever is printed; sized instantiations are compared with the std-derived twin that
+    lacks the ignored fields, under every formatter flag, and the unsized instantiations must type-check"""
+    head = derive_head(["Debug"], entry)
+    dx_items = ("HEAD pub struct A<G: ?Sized> { #[debug(ignore)] pub skip: u8, pub n: u8, pub body: G }\n"
+                "        HEAD pub struct B(#[debug(ignore)] pub u8, pub str);\n"
+                "        HEAD pub struct C<V: ?Sized>(pub u8, #[debug(ignore)] pub u16, pub ::dx_support::Tagged<u8, V>);\n"
+                "        HEAD pub struct D { #[debug(ignore)] pub a: u8, pub m: u8, #[debug(ignore)] pub b: u8, pub tail: [u8] }\n"
+                "        HEAD pub struct E<G: ?Sized>(#[debug(ignore)] pub u8, pub G);\n")
+    sd_items = ("HEAD pub struct A<G: ?Sized> { pub n: u8, pub body: G }\n"
+                "        HEAD pub struct B(pub str);\n"
+                "        HEAD pub struct C<V: ?Sized>(pub u8, pub ::dx_support::Tagged<u8, V>);\n"
+                "        HEAD pub struct D { pub m: u8, pub tail: [u8] }\n"
+                "        HEAD pub struct E<G: ?Sized>(pub G);\n")
+    shows = ("        pub fn show_a(x: &A<str>) -> String { format!(\"{:?}\", x) }\n"
+             "        pub fn show_b(x: &B) -> String { format!(\"{:#?}\", x) }\n"
+             "        pub fn show_c(x: &C<[u8]>) -> String { format!(\"{:?}\", x) }\n"
+             "        pub fn show_d(x: &D) -> String { format!(\"{:?}\", x) }\n"
+             "        pub fn show_e(x: &E<dyn ::core::fmt::Debug>) -> String { format!(\"{:?}\", x) }")
+    flags = ", ".join("format!(\"%s\", $x)" % f for f in FLAGS)
+    return """pub mod m%d {
+    pub mod dx {
+        %s
+    }
+    pub mod sd {
+        %s
+    }
+    macro_rules! all { ($x:expr) => { vec![%s] } }
+    pub fn run() -> String {
+        let a1 = all!(dx::A::<i32> { skip: 9, n: 1, body: -3i32 }); let a2 = all!(sd::A::<i32> { n: 1, body: -3i32 });
+        let c1 = all!(dx::C::<f64>(1u8, 7u16, ::dx_support::Tagged(2u8, 1.5f64))); let c2 = all!(sd::C::<f64>(1u8, ::dx_support::Tagged(2u8, 1.5f64)));
+        let e1 = all!(dx::E::<&str>(5u8, "x")); let e2 = all!(sd::E::<&str>("x"));
+        let b1: ::std::boxed::Box<dx::E<[u8]>> = ::std::boxed::Box::new(dx::E(1u8, [1u8, 2]));
+        let b2: ::std::boxed::Box<sd::E<[u8]>> = ::std::boxed::Box::new(sd::E([1u8, 2]));
+        let u = dx::show_e(&dx::E(0u8, 3u8)) == sd::show_e(&sd::E(3u8)) && format!("{:?}", b1) == format!("{:?}", b2) && format!("{:#?}", b1) == format!("{:#?}", b2);
+        format!("{{\\"id\\":%d,\\"ev\\":\\"same_as_twin\\",\\"equal\\":{}}}\\n", a1 == a2 && c1 == c2 && e1 == e2 && u)
+    }
+}""" % (idx, (dx_items + shows).replace("HEAD", head), (sd_items + shows).replace("HEAD", "#[derive(Debug)]"), flags, idx)
+
+
 def default_shadow_module(idx, entry):
     """default expressions that call functions named like EARLIER fields of the same item: the expressions are the user's and keep
     meaning the user's functions"""
